@@ -12,6 +12,7 @@ import (
 	"net/http"
 	"net/http/httptest"
 	"net/url"
+	"sort"
 	"strconv"
 	"strings"
 
@@ -44,6 +45,7 @@ type c13Case struct {
 	Dflt    any    `json:"dflt"`
 	Ct      string `json:"ct"`
 	Mt      string `json:"mt"`
+	Enc     any    `json:"enc"` // array properties sent as one comma-separated pair (encoding explode: false)
 	// parameters next to the body (history cases): per location "none" | "absent" | "present"
 	PP    map[string]string `json:"pp"`
 	PDflt map[string]any    `json:"pdflt"`
@@ -115,6 +117,86 @@ func taggedOfJSON(s string) any {
 	return t
 }
 
+func (tc *c13Case) noExplode(name string) bool {
+	for _, n := range asSlice(tc.Enc) {
+		if n.(string) == name {
+			return true
+		}
+	}
+	return false
+}
+
+// c13Schema realises an abstract schema of this property: as absSchemaToOpenAPI does, except that a oneOf with a
+// discriminator (field dmap: [pn, keys]) becomes a component whose branches are components too -- a mapping can
+// only designate references -- with keys[i] mapped to branch i (no mapping when keys is empty).
+func c13Schema(a any, doc map[string]any, prefix string) map[string]any {
+	comps, _ := doc["components"].(map[string]any)
+	if comps == nil {
+		comps = map[string]any{}
+		doc["components"] = comps
+	}
+	schemas, _ := comps["schemas"].(map[string]any)
+	if schemas == nil {
+		schemas = map[string]any{}
+		comps["schemas"] = schemas
+	}
+	n := 0
+	var lift func(x any) any
+	lift = func(x any) any {
+		switch m := x.(type) {
+		case []any:
+			out := make([]any, len(m))
+			for i := range m {
+				out[i] = lift(m[i])
+			}
+			return out
+		case map[string]any:
+			if _, tagged := m["t"]; tagged { // a value (default, enum member), not a schema
+				return m
+			}
+			out := map[string]any{}
+			for k, v := range m {
+				switch k {
+				case "oneOf", "anyOf", "allOf", "ps", "items", "not", "apSchema":
+					out[k] = lift(v)
+				case "dmap":
+				default:
+					out[k] = v
+				}
+			}
+			dm, ok := m["dmap"].(map[string]any)
+			if !ok {
+				return out
+			}
+			n++
+			name := prefix + "D" + strconv.Itoa(n)
+			var refs []any
+			mapping := map[string]any{}
+			keys := asSlice(dm["keys"])
+			for i, br := range asSlice(out["oneOf"]) {
+				bn := name + "B" + strconv.Itoa(i+1)
+				schemas[bn] = absSchemaToOpenAPI(br)
+				refs = append(refs, map[string]any{"$ref": "#/components/schemas/" + bn})
+				if i < len(keys) {
+					mapping[keys[i].(string)] = "#/components/schemas/" + bn
+				}
+			}
+			delete(out, "oneOf")
+			node := absSchemaToOpenAPI(out)
+			node["oneOf"] = refs
+			disc := map[string]any{"propertyName": dm["pn"]}
+			if len(mapping) > 0 {
+				disc["mapping"] = mapping
+			}
+			node["discriminator"] = disc
+			schemas[name] = node
+			return map[string]any{"ref": name}
+		}
+		return x
+	}
+	return absSchemaToOpenAPI(lift(a))
+}
+
 // c13Sent realises the abstract body value in the media type of the case: the bytes sent and the Content-Type header.
 func c13Sent(tc *c13Case) (string, string) {
 	mt := tc.Mt
@@ -129,12 +211,29 @@ func c13Sent(tc *c13Case) (string, string) {
 		m := tc.V.(map[string]any)
 		ks, vs := asSlice(m["k"]), asSlice(m["v"])
 		var names, texts []string
+		text := func(fv map[string]any) string {
+			if fv["t"] == "str" {
+				return csToString(fv["cs"])
+			}
+			return taggedToJSONText(fv)
+		}
 		for i := range ks {
-			names = append(names, ks[i].(string))
-			if fv := vs[i].(map[string]any); fv["t"] == "str" {
-				texts = append(texts, csToString(fv["cs"]))
+			name := ks[i].(string)
+			fv := vs[i].(map[string]any)
+			if fv["t"] != "arr" {
+				names, texts = append(names, name), append(texts, text(fv))
+				continue
+			}
+			var items []string
+			for _, it := range asSlice(fv["a"]) {
+				items = append(items, text(it.(map[string]any)))
+			}
+			if tc.noExplode(name) {
+				names, texts = append(names, name), append(texts, strings.Join(items, ","))
 			} else {
-				texts = append(texts, taggedToJSONText(fv))
+				for _, it := range items {
+					names, texts = append(names, name), append(texts, it)
+				}
 			}
 		}
 		return names, texts
@@ -196,8 +295,28 @@ func c13Parsed(tc *c13Case, text string, hdr http.Header, mtDecl *openapi3.Media
 	return nil
 }
 
+// c13Fields: the name=value pairs of a form body (net/url), sorted; nil when it is not a form.
+func c13Fields(text string) []any {
+	vals, err := url.ParseQuery(text)
+	if err != nil {
+		return []any{map[string]any{"n": "<unparsable>", "v": ""}}
+	}
+	names := make([]string, 0, len(vals))
+	for n := range vals {
+		names = append(names, n)
+	}
+	sort.Strings(names)
+	out := []any{}
+	for _, n := range names {
+		for _, v := range vals[n] {
+			out = append(out, map[string]any{"n": n, "v": v})
+		}
+	}
+	return out
+}
+
 // c13Op builds the operation of one request description (body cases, parameter cases and the requests of a history).
-func c13Op(tc *c13Case, doc map[string]any) map[string]any {
+func c13Op(tc *c13Case, doc map[string]any, prefix string) map[string]any {
 	op := map[string]any{"responses": map[string]any{"200": map[string]any{"description": "ok"}}}
 	if tc.Kind == "param" {
 		var sch map[string]any
@@ -223,12 +342,19 @@ func c13Op(tc *c13Case, doc map[string]any) map[string]any {
 	if mt == "" {
 		mt = "application/json"
 	}
-	op["requestBody"] = map[string]any{"required": true, "content": map[string]any{mt: map[string]any{
-		"schema": absSchemaToOpenAPI(tc.Schema)}}}
+	media := map[string]any{"schema": c13Schema(tc.Schema, doc, prefix)}
+	if encs := asSlice(tc.Enc); len(encs) > 0 {
+		e := map[string]any{}
+		for _, n := range encs {
+			e[n.(string)] = map[string]any{"style": "form", "explode": false}
+		}
+		media["encoding"] = e
+	}
+	op["requestBody"] = map[string]any{"required": true, "content": map[string]any{mt: media}}
 	if tc.Sec != "none" {
-		doc["components"] = map[string]any{"securitySchemes": map[string]any{
+		doc["components"].(map[string]any)["securitySchemes"] = map[string]any{
 			"A": map[string]any{"type": "apiKey", "in": "header", "name": "X-A"},
-			"B": map[string]any{"type": "apiKey", "in": "header", "name": "X-B"}}}
+			"B": map[string]any{"type": "apiKey", "in": "header", "name": "X-B"}}
 		switch tc.Sec {
 		case "fail_read_then_pass":
 			op["security"] = []any{map[string]any{"A": []any{}}, map[string]any{"B": []any{}}}
@@ -363,7 +489,7 @@ func c13Load(tcs []*c13Case, line map[string]any) (*openapi3.T, []*c13Live) {
 		if tc.Kind == "param" {
 			method = "get"
 		}
-		paths["/t"+strconv.Itoa(i+1)] = map[string]any{method: c13Op(tc, doc)}
+		paths["/t"+strconv.Itoa(i+1)] = map[string]any{method: c13Op(tc, doc, "R"+strconv.Itoa(i+1))}
 	}
 	doc["paths"] = paths
 	data, _ := json.Marshal(doc)
@@ -426,6 +552,16 @@ func (lv *c13Live) readBody(o map[string]any, tag string) string {
 		if mtDecl := lv.route.Operation.RequestBody.Value.Content.Get(lv.req.Header.Get("Content-Type")); mtDecl != nil {
 			if t := c13Parsed(lv.tc, after, lv.req.Header, mtDecl); t != nil {
 				o["parsed"+tag] = t
+			}
+			if lv.tc.Mt == "application/x-www-form-urlencoded" {
+				// the form as the next handler sees it, whatever the schema declares: its name=value pairs
+				o["fields"+tag] = c13Fields(after)
+				if _, done := o["fields0"]; !done {
+					o["fields0"] = c13Fields(lv.sent)
+					if t := c13Parsed(lv.tc, lv.sent, lv.req.Header, mtDecl); t != nil {
+						o["parsed0"] = t
+					}
+				}
 			}
 		}
 	}
